@@ -180,7 +180,10 @@ class Prog:
         returns_none = fn.returns is None or (isinstance(fn.returns, ast.Constant) and fn.returns.value is None)
         self.cfg = CFGBuilder().build(fn.body, returns_none, Globals(inspect.currentframe()))
         self.nested: list = []
-        self.code = self._compile_cfg(self.cfg)
+        try:
+            self.code = self._compile_cfg(self.cfg)
+        except TypeError as e:      # a desugared node CPython's compiler does not know (comprehensions): side B is unavailable for this program
+            self.code, self.cfg_error = None, str(e)
         self._nested_code: dict = {}
 
     def _compile_cfg(self, cfg):
@@ -225,6 +228,8 @@ class Prog:
         return env.get("%ret")
 
     def run_cfg(self, args, rec: Rec, fuel: int = 80, extra=None):
+        if self.code is None:
+            raise RuntimeError("the CFG of this program cannot be executed by CPython: " + self.cfg_error)
         env = rec.env()
         env.update(extra or {})
         env.update({"__make_iter": make_iter, "__iter_next": iter_next, "range": range, "abs": abs, "min": min, "max": max,
